@@ -21,7 +21,9 @@ vars == <<sh, sg, chk, lastkf, hung, hist>>
 View == <<[sh EXCEPT !.st = EmptyStats, !.gen = 0], sg.gone, chk, lastkf, hung, Len(hist)>>
 
 Mk(s, i) == [id |-> i, kind |-> s.kind, vis |-> s.vis, hid |-> s.hid, thr |-> s.thr, amt |-> s.amt,
-             auto |-> s.auto, ts |-> s.ts, side |-> s.side, px |-> Price,
+             auto |-> s.auto, ts |-> s.ts, side |-> s.side,
+             \* the order's own price field is not validated by add_order: a shape may carry an offset
+             px |-> IF "dpx" \in DOMAIN s THEN Price + s.dpx ELSE Price,
              par |-> IF s.kind = "TrailingStop" THEN "GTC|5|100" ELSE IF s.kind = "Pegged" THEN "GTC|-3|BestBid" ELSE "GTC"]
 
 CallsFrom(s) ==
